@@ -32,6 +32,8 @@ type Knobs struct {
 	ReadKey  string   // rsa | ecc | garbage | err
 	Signs    []string // per PKSIGN: ok | needpin | needpin-badpin | err | other-inquiry
 	Default  string   // PKSIGN behaviour once Signs is used up (default "ok")
+	// TruncateAt: with ReadKey "truncated", how many bytes of the key s-expression are sent
+	TruncateAt int
 }
 
 type Daemon struct {
@@ -131,6 +133,19 @@ func (d *Daemon) log(who, line, arg string) {
 	}
 	d.mu.Unlock()
 }
+
+// rsaSexp: the card's public key as READKEY returns it (canonical s-expression)
+func (d *Daemon) rsaSexp() []byte {
+	n := d.Key.N.Bytes()
+	if n[0]&0x80 != 0 {
+		n = append([]byte{0}, n...)
+	}
+	e := []byte{1, 0, 1}
+	return []byte(fmt.Sprintf("(10:public-key(3:rsa(1:n%d:%s)(1:e%d:%s)))", len(n), n, len(e), e))
+}
+
+// SexpLen: length of that s-expression (for callers that want to truncate it everywhere)
+func (d *Daemon) SexpLen() int { return len(d.rsaSexp()) }
 
 // escape as libassuan does: %, CR, LF
 func escape(b []byte) string {
@@ -293,14 +308,16 @@ func (d *Daemon) serve(c net.Conn) {
 			case "garbage":
 				s.sendData([]byte("(10:public-key(3:rsa(1:n9999:abc"), "pubkey-garbage")
 				s.send("OK", "OK", "")
-			default:
-				n := d.Key.N.Bytes()
-				if n[0]&0x80 != 0 {
-					n = append([]byte{0}, n...)
+			case "truncated":
+				sexp := d.rsaSexp()
+				n := k.TruncateAt
+				if n <= 0 || n >= len(sexp) {
+					n = len(sexp) / 2
 				}
-				e := []byte{1, 0, 1}
-				sexp := fmt.Sprintf("(10:public-key(3:rsa(1:n%d:%s)(1:e%d:%s)))", len(n), n, len(e), e)
-				s.sendData([]byte(sexp), "pubkey-rsa")
+				s.sendData(sexp[:n], "pubkey-truncated")
+				s.send("OK", "OK", "")
+			default:
+				s.sendData(d.rsaSexp(), "pubkey-rsa")
 				s.send("OK", "OK", "")
 			}
 		case "SETDATA":
